@@ -744,15 +744,22 @@ fn run_c02guard(ctx: &Ctx) {
             }
             let original: Vec<u8> = region.to_vec();
             let len = *rng.pick(&[4usize, 5, 8, 12, 12, 12, 16]);
-            let off = match rng.below(4) {
+            // every patched range has at least 16 mapped bytes from its start (the slot the properties grant)
+            let mode = rng.below(4);
+            let off = match mode {
                 0 => PAGE - 1 - rng.below(len as u64) as usize, // straddles the page boundary
-                1 => 2 * PAGE - len,                             // ends with the mapping
+                1 => PAGE - len,                                 // ends exactly with the first page; the second page is read-only
                 2 => 0,
-                _ => rng.below((2 * PAGE - len) as u64) as usize,
+                _ => rng.below((2 * PAGE - 16) as u64) as usize,
             };
             let saved = original[off..off + len].to_vec();
             for k in 0..len {
                 region[off + k] = !original[off + k];
+            }
+            if mode == 1 {
+                // like program text: the neighbouring page is mapped but not writable, and restoring this range gives
+                // nobody a reason to make it so
+                unsafe { libc::mprotect((base + PAGE) as *mut libc::c_void, PAGE, libc::PROT_READ | libc::PROT_EXEC) };
             }
             let (jit, jit_size) = if *with_tramp {
                 let j = unsafe { libc::mmap(std::ptr::null_mut(), PAGE, libc::PROT_READ | libc::PROT_WRITE | libc::PROT_EXEC, libc::MAP_PRIVATE | libc::MAP_ANONYMOUS, -1, 0) };
